@@ -258,8 +258,9 @@ func (v *VMValue) UnmarshalJSON(input []byte) error {
 		if err == nil {
 			if val, ok := builtinValues[v1.Value.Name]; ok {
 				v.Value = val.Value
+				return nil
 			}
-			return nil
+			return errors.New("值错误: 未知的内置函数 " + v1.Value.Name)
 		}
 		return err
 	case VMTypeNativeObject:
